@@ -4,6 +4,8 @@ package main
 // findings, write evidence, decide the exit code.
 
 import (
+	"bytes"
+	"context"
 	"crypto/sha256"
 	"encoding/hex"
 	"encoding/json"
@@ -105,6 +107,7 @@ func cmdCheck(args []string) int {
 	noReplay := fs.Bool("no-replay", false, "")
 	only := fs.String("only", "", "run only jobs whose name contains this")
 	replayFile := fs.String("replay", "", "replay a stored counterexample natively")
+	noCross := fs.Bool("no-cross", false, "skip the cross-solver check")
 	tmo := fs.Int("timeout", 0, "give up exploring after this many seconds (remaining work is reported as inconclusive)")
 	var id string
 	if len(args) > 0 && !strings.HasPrefix(args[0], "-") {
@@ -161,7 +164,23 @@ func cmdCheck(args []string) int {
 	if *tier == "thorough" {
 		ex.timeoutMs = 60000
 	}
+	// cross-solver check: worker 0's query stream is recorded and re-decided by z3 5.1.0
+	crossDir := filepath.Join(verifDir, ".scratch")
+	os.MkdirAll(crossDir, 0o755)
+	ex.crossLog = filepath.Join(crossDir, fmt.Sprintf("cross_%s_%d.smt2", id, os.Getpid()))
+	ex.crossMax = 600
+	if *tier == "thorough" {
+		ex.crossMax = 6000
+	}
+	if *noCross {
+		ex.crossLog = ""
+	}
 	ex.Run(jobs)
+	var cross map[string]any
+	if ex.crossLog != "" {
+		cross = crossCheck(ex.crossLog, "z3-new")
+		os.Remove(ex.crossLog)
+	}
 
 	// gather
 	inconclusive := []string{}
@@ -336,6 +355,14 @@ func cmdCheck(args []string) int {
 		}
 		vout = append(vout, rec)
 	}
+	if cross != nil {
+		if n, _ := cross["disagreements"].(int); n > 0 {
+			inconclusive = append(inconclusive, fmt.Sprintf("SOLVER-DISAGREEMENT: %d of %v recorded queries are decided differently by %v: %v", n, cross["compared"], cross["solver"], cross["first_disagreement"]))
+		}
+		if e, _ := cross["error"].(string); e != "" {
+			fmt.Fprintln(os.Stderr, "cross-solver check not performed:", e)
+		}
+	}
 	if exit == 0 && len(inconclusive) > 0 {
 		exit = 2
 	}
@@ -378,6 +405,7 @@ func cmdCheck(args []string) int {
 		"queries":                         map[string]int{"total": ex.solverStats.q, "sat": ex.solverStats.sat, "unsat": ex.solverStats.unsat, "unknown": ex.solverStats.unk},
 		"solver_s":                        ex.solverStats.t.Seconds(),
 		"solver":                          "z3 (via -in, incremental)",
+		"cross_solver_check":              cross,
 		"instructions_interpreted":        steps,
 		"load_s":                          loadT.Seconds(),
 		"stubs":                           def.Stubs,
@@ -403,6 +431,70 @@ func cmdCheck(args []string) int {
 	fmt.Fprintf(os.Stderr, "%s %s: %d jobs, paths %v, %d solver queries (%.1fs), %d violations (%d unlisted), %d replays, wall %.1fs -> exit %d\n",
 		id, *tier, len(jobs), totalPaths, ex.solverStats.q, ex.solverStats.t.Seconds(), len(allViol), nviol, replayed, wall, exit)
 	return exit
+}
+
+// crossCheck feeds a recorded query stream (with z3's answers as "; answer" comments) to a
+// second solver and compares the answers check-sat by check-sat.
+func crossCheck(path, bin string) map[string]any {
+	out := map[string]any{"solver": bin}
+	data, err := os.ReadFile(path)
+	if err != nil {
+		out["error"] = err.Error()
+		return out
+	}
+	var want []string
+	for _, l := range strings.Split(string(data), "\n") {
+		if strings.HasPrefix(l, "; answer ") {
+			want = append(want, strings.TrimPrefix(l, "; answer "))
+		}
+	}
+	out["recorded"] = len(want)
+	if len(want) == 0 {
+		return out
+	}
+	t0 := time.Now()
+	ctx, cancel := context.WithTimeout(context.Background(), 15*time.Minute)
+	defer cancel()
+	cmd := exec.CommandContext(ctx, bin, "-in")
+	cmd.Stdin = bytes.NewReader(data)
+	res, err := cmd.Output()
+	if ctx.Err() != nil {
+		out["error"] = "second solver exceeded 15 min"
+	}
+	var got []string
+	for _, l := range strings.Split(string(res), "\n") {
+		l = strings.TrimSpace(l)
+		if l == "sat" || l == "unsat" || l == "unknown" || l == "timeout" {
+			got = append(got, l)
+		}
+	}
+	n := len(got)
+	if len(want) < n {
+		n = len(want)
+	}
+	agree, dis, undecided := 0, 0, 0
+	for i := 0; i < n; i++ {
+		switch {
+		case got[i] == want[i]:
+			agree++
+		case (got[i] == "sat" && want[i] == "unsat") || (got[i] == "unsat" && want[i] == "sat"):
+			dis++
+			if dis == 1 {
+				out["first_disagreement"] = fmt.Sprintf("query #%d: z3 %s, %s %s", i, want[i], bin, got[i])
+			}
+		default:
+			undecided++
+		}
+	}
+	out["compared"] = n
+	out["agree"] = agree
+	out["disagreements"] = dis
+	out["undecided_by_one_solver"] = undecided
+	out["seconds"] = time.Since(t0).Seconds()
+	if v, err := exec.Command(bin, "--version").Output(); err == nil {
+		out["solver"] = strings.TrimSpace(string(v))
+	}
+	return out
 }
 
 func firstLines(s string, n int) string {
